@@ -1,0 +1,178 @@
+//go:build verif
+
+// Contracts for the ledger store (properties C13, C14, C42), read by /verif/gocv.
+package ledgerstore
+
+//@ spec quorumOf(n int) int = n - (n-1)/3
+//@ spec legacyQuorumOf(n int) int = n - (n*6)/7
+//@ spec curHdrHeight(this *LedgerStoreImp) uint32 = ite(len(this.headerIndex) == 0, uint32(0), uint32(len(this.headerIndex)) - 1)
+//@ spec isVbft() bool = strLower(config.DefConfig.Genesis.ConsensusType) == "vbft"
+//@ spec usesLegacyRule(this *LedgerStoreImp) bool = config.NETWORK_ID_MAIN_NET != config.DefConfig.P2PNode.NetworkId || curHdrHeight(this) <= 20000000
+
+//@ func (*LedgerStoreImp).GetCurrentHeaderHeight
+//@   inline
+
+//@ func (*LedgerStoreImp).GetHeaderByHash
+//@   trusted   -- header cache / block store lookup (LevelDB): assumed to modify nothing visible and to be a function of the hash during one call
+//@   ensures ref(r0) == hdrLookup(ref(this), blockHash)
+
+//@ func (*LedgerStoreImp).verifyHeader
+//@   property C14, C13, C42
+//@   mode abstract
+//@   modifies header.hash   -- assumed frame: Header.Hash caches the digest; the header cache and stores are not part of the verified state
+//@   requires header != nil && this != nil
+//@   requires config.DefConfig != nil && config.DefConfig.Genesis != nil && config.DefConfig.P2PNode != nil
+//@   ghost var prev *types.Header = nil
+//@   ghost var ms bool = false
+//@   ghost var ids bool = false
+//@   set after "prevHeader, err := this.GetHeaderByHash(prevHeaderHash)" : prev := prevHeader
+//@   set after "err = signature.VerifyMultiSignature(hash[:], header.Bookkeepers, m, header.SigData)" : ms := err == nil
+//@   -- genesis is accepted as is; the validator map is unchanged
+//@   ensures header.Height == 0 ==> err == nil && r0 == vbftPeerInfo
+//@   -- C13: the previous header is the one stored under PrevBlockHash, one lower and strictly older
+//@   ensures[c13-prev] err == nil && header.Height != 0 ==> prev != nil && ref(prev) == hdrLookup(ref(this), header.PrevBlockHash) && prev.Height + 1 == header.Height && prev.Timestamp < header.Timestamp
+//@   -- C14: enough bookkeepers, every one a distinct member of the validator map in force
+//@   ensures[c14-count] err == nil && header.Height != 0 && isVbft() ==> len(header.Bookkeepers) >= old(ite(usesLegacyRule(this), legacyQuorumOf(len(vbftPeerInfo)), quorumOf(len(vbftPeerInfo))))
+//@   ensures[c14-member] err == nil && header.Height != 0 && isVbft() ==> forall a int :: 0 <= a && a < len(header.Bookkeepers) ==> has(vbftPeerInfo, pubkeyID(ref(header.Bookkeepers[a])))
+//@   ensures[c14-distinct] err == nil && header.Height != 0 && isVbft() ==> forall a int, b int :: 0 <= a && a < b && b < len(header.Bookkeepers) ==> pubkeyID(ref(header.Bookkeepers[a])) != pubkeyID(ref(header.Bookkeepers[b]))
+//@   -- the multi-signature check ran on the header hash with the required threshold and succeeded
+//@   ensures[c14-multisig] err == nil && header.Height != 0 ==> ms
+//@   callsite[c14-threshold] VerifyMultiSignature#1 requires m == ite(usesLegacyRule(this), legacyQuorumOf(len(vbftPeerInfo)), quorumOf(len(vbftPeerInfo))) && bytes(arg0) == bytes(hdrDigest(ref(header))) && arg1 == header.Bookkeepers && arg3 == header.SigData
+//@   callsite[c14-threshold-legacy-consensus] VerifyMultiSignature#2 requires m == quorumOf(len(header.Bookkeepers)) && bytes(arg0) == bytes(hdrDigest(ref(header))) && arg1 == header.Bookkeepers && arg3 == header.SigData
+//@   -- the validator map changes only on the fully verified path
+//@   ensures[c14-mapchange] r0 != vbftPeerInfo ==> err == nil && ms && isVbft()
+//@   ensures err != nil ==> r0 == vbftPeerInfo
+//@   loop 1 invariant !isnil(usedPubKey) && fresh(usedPubKey)
+//@   loop 1 invariant forall a int :: 0 <= a && a < it1 ==> has(vbftPeerInfo, pubkeyID(ref(header.Bookkeepers[a]))) && usedPubKey[pubkeyID(ref(header.Bookkeepers[a]))]
+//@   loop 1 invariant forall a int, b int :: 0 <= a && a < b && b < it1 ==> pubkeyID(ref(header.Bookkeepers[a])) != pubkeyID(ref(header.Bookkeepers[b]))
+//@   loop 2 invariant !isnil(peerInfo) && fresh(peerInfo)
+
+// ---- C13: the ledger only grows by valid successors ------------------------------------------
+
+//@ func (*LedgerStoreImp).GetCurrentBlockHeight
+//@   inline
+
+//@ func (*LedgerStoreImp).tryGetSavingBlockLock
+//@   trusted   -- channel select on the saving-block semaphore: outside the subset; touches no verified state
+//@ func (*LedgerStoreImp).releaseSavingBlockLock
+//@   trusted   -- channel receive on the saving-block semaphore
+//@ func (*LedgerStoreImp).getSavingBlockLock
+//@   trusted   -- channel send on the saving-block semaphore
+//@ func (*LedgerStoreImp).delHeaderCache
+//@   trusted   -- header cache only; not part of the verified state
+//@ func (*LedgerStoreImp).addHeaderCache
+//@   trusted   -- header cache only
+//@ func (*LedgerStoreImp).setHeaderIndex
+//@   trusted   -- header index map update; frame assumed: only this.headerIndex
+//@   modifies mapof(this.headerIndex)
+
+//@ func (*LedgerStoreImp).executeBlock
+//@   trusted   -- provisional (its own contract is the subject of C15/C11): assumed not to modify the fields of LedgerStoreImp or the block
+//@   modifies Store
+
+//@ func (*LedgerStoreImp).GetBlockRootWithPreBlockHashes
+//@   property C13
+//@   mode abstract
+//@   nopanic on
+//@   requires this != nil && this.stateStore != nil
+//@   requires len(preBlockHashes) >= 1 && len(preBlockHashes) <= 0x7fffffff
+//@   -- the caller is at most one block ahead of the ledger (otherwise the uint32 index wraps)
+//@   requires startHeight <= this.currBlockHeight + 1 && this.currBlockHeight < 0xfffffff0
+//@   modifies nothing
+
+//@ func (*LedgerStoreImp).submitBlock
+//@   property C13
+//@   mode abstract
+//@   modifies *
+//@   requires this != nil && block != nil && block.Header != nil && this.stateStore != nil
+//@   requires block.Header.Height == this.currBlockHeight + 1 || block.Header.Height == 0
+//@   requires this.currBlockHeight < 0xfffffff0
+//@   ghost var rootOK bool = false
+//@   ghost var stored bool = false
+//@   ghost var committed bool = false
+//@   ghost var curSet bool = false
+//@   set after "blockRoot := this.GetBlockRootWithPreBlockHashes(block.Header.Height, []common.Uint256{block.Header.PrevBlockHash})" : rootOK := block.Header.Height == 0 || blockRoot == block.Header.BlockRoot
+//@   set before "err := this.saveBlockToBlockStore(block)" : stored := true
+//@   set after "err = this.stateStore.CommitTo()" : committed := err == nil
+//@   set before "this.setCurrentBlock(blockHeight, blockHash)" : curSet := true
+//@   -- nothing is written to any store unless the block root matches the accumulator root
+//@   ensures[c13-root] stored ==> rootOK
+//@   -- the current-block pointer moves only after all three commits succeeded, and success means it moved
+//@   ensures[c13-commit-order] curSet ==> committed && stored
+//@   ensures[c13-success] err == nil ==> curSet
+//@   callsite[c13-setcurrent] setCurrentBlock#1 requires arg0 == old(block.Header.Height) && arg1 == hdrDigest(ref(old(block.Header)))
+
+//@ func (*LedgerStoreImp).saveBlock
+//@   property C13
+//@   mode abstract
+//@   modifies *
+//@   requires this != nil && block != nil && block.Header != nil && this.stateStore != nil
+//@   requires this.currBlockHeight < 0xfffffff0
+//@   ghost var submitted bool = false
+//@   ghost var rootMatch bool = false
+//@   set before "return this.submitBlock(block, result)" : submitted := true
+//@   set before "return this.submitBlock(block, result)" : rootMatch := result.MerkleRoot == stateMerkleRoot
+//@   -- the block is handed to the commit step only at the next height (or genesis) [pre of submitBlock]
+//@   -- and only if executing it reproduced the state root the caller supplied
+//@   ensures[c13-stateroot] submitted ==> rootMatch
+
+//@ func (*LedgerStoreImp).AddBlock
+//@   property C13, C14
+//@   mode abstract
+//@   modifies *
+//@   requires this != nil && block != nil && block.Header != nil && this.stateStore != nil
+//@   requires this.currBlockHeight < 0xfffffff0
+//@   requires config.DefConfig != nil && config.DefConfig.Genesis != nil && config.DefConfig.P2PNode != nil
+//@   ghost var cur uint32 = 0
+//@   ghost var vh bool = false
+//@   ghost var saved bool = false
+//@   ghost var mapAfterVerify map[string]uint32 = nil
+//@   set after "currBlockHeight := this.GetCurrentBlockHeight()" : cur := currBlockHeight
+//@   set after "this.vbftPeerInfoblock, err = this.verifyHeader(block.Header, this.vbftPeerInfoblock)" : vh := err == nil
+//@   set after "this.vbftPeerInfoblock, err = this.verifyHeader(block.Header, this.vbftPeerInfoblock)" : mapAfterVerify := this.vbftPeerInfoblock
+//@   set before "err = this.saveBlock(block, stateMerkleRoot)" : saved := true
+//@   -- a block is passed on for saving only at the next height and only after its header verified
+//@   ensures[c13-next-height] saved ==> vh && old(block.Header.Height) == cur + 1
+//@   -- re-submitting an already committed height changes nothing
+//@   ensures[c13-stale] old(block.Header.Height) <= cur ==> err == nil && !saved && this.vbftPeerInfoblock == old(this.vbftPeerInfoblock)
+//@   -- C14: the validator map in force changes only through a header that verified
+//@   ensures[c14-mapchange] !saved ==> (this.vbftPeerInfoblock == old(this.vbftPeerInfoblock) || vh)
+//@   ensures[c14-mapchange2] !vh ==> !saved
+//@   callsite[c14-args] verifyHeader#1 requires arg0 == block.Header && arg1 == this.vbftPeerInfoblock
+
+//@ func (*LedgerStoreImp).SubmitBlock
+//@   property C13, C14
+//@   mode abstract
+//@   modifies *
+//@   requires this != nil && block != nil && block.Header != nil && this.stateStore != nil
+//@   requires this.currBlockHeight < 0xfffffff0
+//@   requires config.DefConfig != nil && config.DefConfig.Genesis != nil && config.DefConfig.P2PNode != nil
+//@   ghost var cur uint32 = 0
+//@   ghost var vh bool = false
+//@   ghost var saved bool = false
+//@   set after "currBlockHeight := this.GetCurrentBlockHeight()" : cur := currBlockHeight
+//@   set after "this.vbftPeerInfoblock, err = this.verifyHeader(block.Header, this.vbftPeerInfoblock)" : vh := err == nil
+//@   set before "err = this.submitBlock(block, result)" : saved := true
+//@   ensures[c13-next-height] saved ==> vh && old(block.Header.Height) == cur + 1
+//@   ensures[c13-stale] old(block.Header.Height) <= cur ==> err == nil && !saved && this.vbftPeerInfoblock == old(this.vbftPeerInfoblock)
+//@   ensures[c14-mapchange] !saved ==> (this.vbftPeerInfoblock == old(this.vbftPeerInfoblock) || vh)
+//@   callsite[c14-args] verifyHeader#1 requires arg0 == block.Header && arg1 == this.vbftPeerInfoblock
+
+//@ func (*LedgerStoreImp).AddHeader
+//@   property C14
+//@   mode abstract
+//@   modifies *
+//@   requires this != nil && header != nil
+//@   requires config.DefConfig != nil && config.DefConfig.Genesis != nil && config.DefConfig.P2PNode != nil
+//@   ghost var vh bool = false
+//@   ghost var indexed bool = false
+//@   set after "this.vbftPeerInfoheader, err = this.verifyHeader(header, this.vbftPeerInfoheader)" : vh := err == nil
+//@   set before "this.addHeaderCache(header)" : indexed := true
+//@   -- a header enters the header index only at the next header height and after it verified
+//@   ensures[c14-header] indexed ==> vh
+//@   ensures[c14-mapchange] !indexed ==> (this.vbftPeerInfoheader == old(this.vbftPeerInfoheader) || vh)
+//@   ensures err == nil ==> indexed
+//@   callsite[c14-args] verifyHeader#1 requires arg0 == header && arg1 == this.vbftPeerInfoheader
+
+//@ func (*StateStore).GetBlockRootWithPreBlockHashes
+//@   trusted   -- root of the block-hash accumulator extended by the given hashes (merkle package, C06); reads only
